@@ -31,6 +31,7 @@ CPLX = ["1+2j", "(1+2j)*2", "2*1j", "sqrt(-1+0j)", "z", "z*z", "1j**2+0.5j", "-z
         # computed complex values whose imaginary part happens to be zero are still complex values
         "1j*1j", "2j**2", "z-2j", "(1+2j)*(1-2j)", "z*0"]
 CSLOTS = [("int", "int v = C"), ("float", "float v = C"), ("intarr", "int array V =\n    1, C"), ("floatarr", "float array V[1, 2] =\n    C, 1"), ("floatarr2", "float array V =\n    1, 2\n    3, C"),
+          ("floatarr-with-param", "float array V =\n    {alpha}, 0.5, C"), ("intarr-with-param", "int array V[1, 3] =\n    1, {p}, C"), ("floatarr2-with-param", "float array V =\n    C, 2\n    3, {p}"),
           ("intloop", "for int j in [C]\n    G | 0"), ("floatloop", "for float j in [1.5, C]\n    G | 0")]
 LOOPT = [("int", "0.5"), ("int", '"a"'), ("str", "1"), ("float", '"a"'), ("bool", "2"), ("int", "1, 2.5"), ("bool", '"True"'), ("str", "True"), ("int", "7/2"),
          ("str", '"a", 2.5'), ("str", '"x", True'), ("str", '1, "b"'), ("int", '1, "2"'), ("float", '0.5, "1.5"'), ("bool", 'True, 2')]
